@@ -1024,7 +1024,8 @@ def into(c):
     # a workspace `impl From<T> for U`
     for path, i in c.it.prog.trait_method_impls("std::convert::From", "from"):
         if path in c.it.prog.bodies and _strip_lt(i["self_s"]) == u:
-            mm = re.match(r"^<.* as std::convert::From<(.*)>>::from$", _strip_lt(path))
+            mm = re.match(r"^<.* as std::convert::From<(.*)>>::from$", _strip_lt(path)) or \
+                re.match(r"^.*<impl std::convert::From<(.*)> for .*>::from$", _strip_lt(path))
             if mm and mm.group(1) == t:
                 return c.it.call_local(c.st, c.fr, c.bb, path, c.args, c.term, part=c.part)
     if t == u:
